@@ -86,3 +86,30 @@ func historyKinds(tier string) []string {
 	}
 	return []string{"mixed", "stream-cancel", "write-fail", "close"}
 }
+
+// withConfig wraps scenarios so that they run with additional behaviour-neutral features
+// switched on (env.Config): every oracle of the wrapped scenario still applies.
+func withConfig(cfgs []string, scs ...*explore.Scenario) []*explore.Scenario {
+	var out []*explore.Scenario
+	for _, sc := range scs {
+		for _, cfg := range cfgs {
+			c := *sc
+			base := sc.Run
+			c.Name = sc.Name + "/with=" + cfg
+			c.Run = func() {
+				env.Config = cfg
+				defer func() { env.Config = "" }()
+				base()
+			}
+			out = append(out, &c)
+		}
+	}
+	return out
+}
+
+func configKinds(tier string) []string {
+	if tier == "thorough" {
+		return env.ConfigKinds
+	}
+	return []string{"stats2+interceptors", "chain+stats", "stats2+chain+services+serialize"}
+}
